@@ -4953,7 +4953,18 @@ class QntRmUnusedMacro(Macro):
         if free_vars != r_vars:
             raise VeriTException("qnt_rm_unused", "after removing unused vars in lhs, \
                                     lhs and rhs still have different quantified variables")
-        
+
+        # The remaining variables must be bound by the same kind of quantifier on both sides.
+        def quant_kinds(tm):
+            kinds = []
+            while tm.is_forall() or tm.is_exists():
+                kinds.append(tm.is_forall())
+                tm = tm.arg.body
+            return kinds
+        l_kinds, r_kinds = quant_kinds(lhs), quant_kinds(rhs)
+        if [k for v, k in zip(l_vars, l_kinds) if v in r_vars] != r_kinds:
+            raise VeriTException("qnt_rm_unused", "lhs and rhs have different quantifiers")
+
         return Thm(goal)    
 
     def get_proof_term(self, args, prevs) -> ProofTerm:
